@@ -586,12 +586,20 @@ NAMES = {
     "y_block_padding": 160, "c1_block_padding": 161, "c2_block_padding": 162, "c_transform": 163, "c_block_padding": 164,
     "picture_number": 170, "fragment_data_length": 171, "fragment_slice_count": 172, "fragment_x_offset": 173,
     "fragment_y_offset": 174,
+    # stream level (Model/SerDesStream.v)
+    "sequences": 200, "data_units": 201, "_state": 202, "sequence_header": 203, "auxiliary_data": 204,
+    "picture_parse": 205, "fragment_parse": 206, "parse_info": 10, "padding": 11, "bytes": 6,
+}
+NAMES_BY_TYPE = {
+    "ParseInfo": {"padding": 0, "_offset": 1, "parse_info_prefix": 2, "parse_code": 3, "next_parse_offset": 4,
+                  "previous_parse_offset": 5},
 }
 TYPE_NAMES = {
     "dict": 0, "SequenceHeader": 10, "ParseParameters": 11, "SourceParameters": 12, "FrameSize": 13,
     "ColorDiffSamplingFormat": 14, "ScanFormat": 15, "FrameRate": 16, "PixelAspectRatio": 17, "CleanArea": 18,
     "SignalRange": 19, "ColorSpec": 20, "ColorPrimaries": 21, "ColorMatrix": 22, "TransferFunction": 23,
     "HQSlice": 30, "LDSlice": 31, "FragmentHeader": 32,
+    "Stream": 40, "Sequence": 41, "DataUnit": 42, "ParseInfo": 1, "Padding": 2, "AuxiliaryData": 3,
 }
 
 
@@ -608,7 +616,10 @@ def vtree(I, o):
     if isinstance(o, list):
         return ["L", [vtree(I, x) for x in o]]
     if isinstance(o, dict):
-        return ["C", TYPE_NAMES[type(o).__name__], [[NAMES[k], vtree(I, v)] for k, v in o.items()]]
+        tn = type(o).__name__
+        names = NAMES_BY_TYPE.get(tn, {})
+        # "_state" (the live decoder State object) is modelled as the constant 0
+        return ["C", TYPE_NAMES[tn], [[names.get(k, NAMES.get(k)), ["I", 0] if k == "_state" else vtree(I, v)] for k, v in o.items()]]
     raise ValueError("uncanonicalisable %r" % (o,))
 
 
@@ -733,6 +744,64 @@ def program_cases(I, rng, n):
     return out
 
 
+def stream_cases(rng, n):
+    """hand-packed multi-unit, multi-sequence streams without picture/fragment units"""
+    out = []
+    other_codes = [0x11, 0x01, 0x40, 0x80, 0x31, 0x12, 0xFF & 0xF3, 0x50]
+    for i in range(n):
+        data, prev = [], 0
+        for _seq in range(rng.choice([1, 1, 2, 3])):
+            for _u in range(rng.choice([0, 1, 2, 4])):
+                k = rng.random()
+                if k < 0.3:
+                    body, code = pack_sequence_header(rng, rng.random() < 0.2), 0x00
+                elif k < 0.7:
+                    body, code = [rng.randrange(256) for _ in range(rng.choice([0, 0, 1, 3, 9]))], rng.choice([0x30, 0x20, 0x21, 0x27])
+                else:
+                    body, code = [], rng.choice(other_codes)
+                npo = 13 + len(body)
+                if code in (0x30, 0x20, 0x21, 0x27) and rng.random() < 0.45:
+                    npo = rng.choice([0, 1, 12, 13, max(0, npo - 1), max(0, npo - 2), npo + 1, npo + 5, npo + 40])
+                elif rng.random() < 0.2:
+                    npo = rng.choice([0, 5, npo + 3])
+                data += parse_info_bytes(code, npo, prev if rng.random() < 0.8 else rng.randrange(64)) + body
+                prev = 13 + len(body)
+            if rng.random() < 0.9:
+                data += parse_info_bytes(0x10, rng.choice([0, 0, 13]), prev)
+                prev = 13
+        r = rng.random()
+        if r < 0.12:
+            data += [rng.randrange(256) for _ in range(rng.randrange(1, 13))]       # trailing bytes
+        elif r < 0.24 and data:
+            data = data[: len(data) - rng.randrange(1, min(13, len(data)) + 1)]       # truncated last unit
+        out.append(data)
+    return out
+
+
+def real_stream_des_ser(I, data):
+    """-> (des_obs, ser_obs), or None when the stream leaves the modelled domain: it (mis)parses into a
+    picture/fragment unit (those bodies are parameters of the model) or a padding/auxiliary unit announces
+    a length the unary bit counter of the model cannot reasonably count"""
+    seen = []
+
+    def driver(sd):
+        seen.append(sd)
+        I["bs"].parse_stream(sd, I["State"]())
+    r = real_des_ser(I, driver, data)
+    try:
+        for seq in seen[0].context.get("sequences", []):
+            for du in seq.get("data_units", []):
+                pi = du.get("parse_info", {})
+                code = pi.get("parse_code", 0x10)
+                if (code & 0x8C) == 0x88 or (code & 0x0C) == 0x0C:
+                    return None
+                if ((code & 0xF8) == 0x20 or code == 0x30) and pi.get("next_parse_offset", 0) > 13 + len(data):
+                    return None
+    except Exception:
+        return None
+    return r
+
+
 def cobs_d(o):
     if o[0] == "err":
         return "(UErr %s)" % cz(o[1])
@@ -843,6 +912,28 @@ def run(ctx):
         ctx.obligation("corr:%s program agrees with vc2.py (case %d)" % (plabels[i][0], i), False, "corr-shard",
                        "program %s data %r impl des=%s ser=%s; model: %s" % (
                            plabels[i][1], plabels[i][2], plabels[i][3], plabels[i][4], diag))
+
+    # ---- tie C: the stream level (parse_stream / parse_sequence loops) as Model/SerDesStream.v ------
+    scases, sdata = [], []
+    for data in stream_cases(rng, ctx.pick(300, 3000)):
+        r = real_stream_des_ser(I, data)
+        if r is None:
+            ctx.count(0, bucket="model-stream/outside-domain")
+            continue
+        dobs, sobs = r
+        scases.append("(%s, %s, %s)" % (clist(data), C21.cobs(dobs), C21.cobs(sobs)))
+        sdata.append((data, dobs[0], sobs[0]))
+        ctx.count(1, key=("stream", len(scases)) if sobs[0] == "ok" else None,
+                  bucket="model-stream/%s" % ("des-" + dobs[0] + ("+ser-" + sobs[0] if dobs[0] == "ok" else "")))
+    bad = ctx.coq_check_cases("streams", ["Model.SerDes", "Model.SerDesVC2", "Model.SerDesStream", "Corr.C21", "Corr.C06"],
+                              "check_stream", scases, shard=20, timeout=900)
+    for n_bad, i in enumerate(bad or []):
+        diag = "(not evaluated)"
+        if n_bad < 3:
+            diag = ctx.coq_eval("streamdiag_%d" % i, ["Model.SerDes", "Model.SerDesVC2", "Model.SerDesStream", "Corr.C21", "Corr.C06"],
+                                "model_stream %s" % clist(sdata[i][0]))
+        ctx.obligation("corr:stream model agrees with parse_stream (case %d)" % i, False, "corr-shard",
+                       "bytes %s impl des=%s ser=%s; model: %s" % (bytes(bytearray(sdata[i][0])).hex(), sdata[i][1], sdata[i][2], diag))
 
     # ---- the framework on random description programs (statement of C06_des_ser on the implementation) ----
     framework_oracle(ctx, rng, ctx.pick(2500, 40000))
